@@ -118,11 +118,12 @@ def _canaries(res, muts):
     for i, (trace, mutate, label) in enumerate(muts):
         full = vlib.read_ndjson(trace)
         ctrace = ctrace or trace.replace(".ndjson", "_canaries.ndjson")
-        evs = _head(full, 80)
-        if not mutate(evs):
-            evs = json.loads(json.dumps(full))
-            if not mutate(evs):
-                raise vlib.ToolError("canary %s: no place to corrupt in %s" % (label, trace))
+        for n in (80, 600, 4000, 10 ** 9):          # shortest prefix of whole cases that can be corrupted
+            evs = _head(full, n)
+            if mutate(evs):
+                break
+        else:
+            raise vlib.ToolError("canary %s: no place to corrupt in %s" % (label, trace))
         for e in evs:
             if e.get("e") == "reset":
                 e["case"] += 100000 * (i + 1)
